@@ -15,6 +15,9 @@ package main
 //                      width of the window 0 .. byte length + 3, every string method, index and loop
 //   containers-changed-while-walked  the root array / for-in iterables shrunk, grown, cleared, reassigned, sorted through a second
 //                      reference while the rule driver or a loop walks them
+//   fuzzing-mode       library runs with fuzzing=true (request flag z): millions of statements below the loop guard's limit with
+//                      every statement kind at every position of the count, loops around and beyond the limit (implementation only)
+//   binary-error-paths the real binary: every error kind x every flag combination (-o modes, -f, -r, stdin / files)
 //
 // Every case compares class,out with the model; the oracle flags any class
 // outside ok/syntax/runtime/json by itself (core.go flags timeouts/crashes).
@@ -2252,4 +2255,538 @@ func init() {
 	register(Family{Name: "containers-changed-while-walked", Prop: "C01",
 		Rule: "24 holders of a second reference to a container that a Go loop is walking -- the rule driver's root array (kept by BEGINFILE { all = $ }, inside a container, handed to a function called from a rule body or from a pattern, with several rules, two files, a -r selector, $ assigned in BEGINFILE, changed from a nested for-in), for-in over $ in BEGINFILE, over an array record, over local arrays (directly, through an alias, in a function over its parameter, changed by a second function, nested over the same array, member and element arrays, in END over the kept root), a counting loop that trusts a length taken before, a match binding, object-key and string loops -- x 31 changes through that reference (pop, popfirst, several, clear by popping, pop().k = 1; push of numbers / arrays / itself / five at once, store at and beyond the end; overwrite first / last / a member, rebind to [] / 5 / a wrapper, sort, sorted copies, aliases, self-reference, json) x when (every round, first only, second on, one in the middle, every other); quick: two of the five timings per pair in rotation; plus random pairs of changes. Programs that only remove or only add are compared with the model on class,out(,json); programs that remove AND add on a walked array (the documented modelling gap: Go walks the slice header, the model the cell list) run on the implementation only. Oracle: class ok or runtime -- never a panic (index out of range), crash or hang",
 		Gen:  c01GenWalked})
+}
+
+// ---------------------------------------------------------------------------
+// family 9: library runs with fuzzing=true (request flag z), as the project's own fuzz targets
+// FuzzJqawk / FuzzJqawkWithJson make them
+//
+// With fuzzing=true the evaluator guards its while / for loops (a runtime error after 10 000
+// rounds). Whatever such a guard counts and wherever it sits, the run still has to end in success
+// or one of the three reported error kinds. A guard that counts the WORK of the whole run (rounds
+// of all loops, statements, calls) trips on whatever statement happens to be executing when the
+// count runs out: a bare `return`, `next`, `break`, `continue`, a print, a call, a match. So the
+// programs here do a lot of work (1-5 million statements) while every single while / for loop
+// stays below 10 000 rounds, their innermost body holds every statement kind, and each program
+// comes in P+2 variants that differ only in the number s = 0 .. P+1 of filler statements executed
+// before the loops (P = number of statements one innermost round executes): whatever the number N
+// at which a counter trips, in one of the variants the N-th statement is the bare `return`, in
+// another one the `continue`, and so on.
+//
+// The model has no fuzzing mode: these cases are implementation only. Oracle (C01): class in
+// ok | runtime | syntax | json; a completed run prints exactly the expected counters, a run
+// stopped with a runtime error has printed a prefix of the expected output.
+
+// c01FzShape is a long-running program: § is where the filler statements go.
+type c01FzShape struct {
+	name   string
+	prog   string
+	period int // upper bound of the number of statements one innermost round executes
+	want   string
+	files  []File
+	sels   []string
+	stmts  int   // rough total number of statements executed
+	fills  []int // the filler counts to use when the cycle is longer than a handful of statements (default 0 .. period+1)
+}
+
+func c01FzShapes(r *rand.Rand, tier string) []c01FzShape {
+	// scale: quick about 2.2-3 million statements per program, thorough up to 5 million
+	big := tier == "thorough"
+	funcs := "function fr() { return }\n" +
+		"function fv(a) { if (a < 0) return 0; return a + 1 }\n" +
+		"function fl() { for (k in [1, 2]) { return } }\n" +
+		"function fm(a) { return match (a) { 0 => 1, _ => 2 } }\n"
+	var shapes []c01FzShape
+	lines := func(n int) string { return strings.Repeat("\n", n) }
+
+	// A: for x for, the innermost body holds every statement kind and ends in `continue`
+	{
+		a, b := 8, 8600+r.Intn(1300)
+		if big {
+			a = 16 + r.Intn(5)
+		}
+		body := "n++; fr(); r = fv(j); fl(); if (j % 2 == 0) { t++ } else { u++ }\n" +
+			"m = match (j % 3) { 0 => fm(0), 1 => fm(j), _ => fm(2) }\n" +
+			"match (1) { _ => { z++ } }\n" +
+			"for (q = 0; q < 9; q++) { w++; break }\n" +
+			"while (0) { }\n" +
+			"print \"\"; o = {a: j}; o.a++; continue"
+		prog := funcs + "BEGIN { z = 0; §\nfor (i = 0; i < " + fmt.Sprint(a) + "; i++) { for (j = 0; j < " + fmt.Sprint(b) + "; j++) { " + body + " } }\nprint n, t + u, z, w }"
+		rounds := a * b
+		shapes = append(shapes, c01FzShape{name: "for-for/every-statement-kind", prog: prog, period: 32, stmts: rounds * 32,
+			want: lines(rounds) + fmt.Sprintf("%d %d %d %d\n", rounds, rounds, rounds, rounds)})
+	}
+	// B: for-in over a long string (no loop guard there) x for-in over an array, bare returns
+	{
+		dbl, el := 10, 150+r.Intn(20)
+		if big {
+			dbl = 12
+		}
+		chars := 2 << dbl
+		prog := funcs + "BEGIN { s = \"ab\"; for (i = 0; i < " + fmt.Sprint(dbl) + "; i++) s = s + s\narr = []; for (i = 0; i < " + fmt.Sprint(el) + "; i++) arr.push(i)\n§\n" +
+			"for (c in s) { for (v, ix in arr) { n++; fr(); if (v == ix) continue; n-- } }\nprint n, s.length() }"
+		shapes = append(shapes, c01FzShape{name: "forin-string-forin-array/bare-return-continue", prog: prog, period: 7, stmts: chars * el * 7,
+			want: fmt.Sprintf("%d %d\n", chars*el, chars)})
+	}
+	// C: the work is in the rules: one record per round, every round ends in `next`
+	{
+		recs := 260000 + r.Intn(20000)
+		if big {
+			recs = 500000
+		}
+		data := []byte("[" + strings.Repeat("1,", recs-1) + "1]")
+		prog := funcs + "BEGIN { § }\n$ > 0 { n++; fr() }\n{ m++; if ($ == 1) next; bad++ }\n{ bad++ }\nEND { print n, m, bad }"
+		shapes = append(shapes, c01FzShape{name: "rules/bare-return-next", prog: prog, period: 9, stmts: recs * 9, files: []File{{Name: "in.json", Data: data}},
+			want: fmt.Sprintf("%d %d <unknown>\n", recs, recs)})
+	}
+	// D: recursion: every level returns with a bare `return`
+	{
+		depth, calls := 60+r.Intn(20), 8500+r.Intn(1400)
+		if big {
+			depth = 120
+		}
+		prog := "function down(d) { if (d == 0) return; down(d - 1); return }\nBEGIN { §\nfor (i = 0; i < " + fmt.Sprint(calls) + "; i++) { down(" + fmt.Sprint(depth) + "); n++ }\nprint n }"
+		// one call is a cycle of 4*depth+4 statements: 3 per level on the way down, then `depth` bare
+		// returns in a row; filler counts half a depth apart land in every stretch of it
+		var fills []int
+		for k := 0; k <= 9; k++ {
+			fills = append(fills, k*(depth/2)+k%3)
+		}
+		shapes = append(shapes, c01FzShape{name: "recursion/bare-return-at-every-level", prog: prog, period: 4*depth + 4, stmts: calls * depth * 4, want: fmt.Sprintf("%d\n", calls), fills: fills})
+	}
+	// E: while x while with the counters in the body, break out of an inner for-in, exit at the very end
+	{
+		a, b := 28+r.Intn(3), 9000+r.Intn(900)
+		if big {
+			a = 60
+		}
+		prog := funcs + "BEGIN { §\ni = 0\nwhile (i < " + fmt.Sprint(a) + ") { i++; j = 0; while (j < " + fmt.Sprint(b) + ") { j++; for (e in [1, 2, 3]) { if (e == 2) break; n++ }\nif (i == " + fmt.Sprint(a) + " && j == " + fmt.Sprint(b) + ") { print n; exit }\n} }\nprint \"not reached\" }\nEND { print \"end\" }"
+		shapes = append(shapes, c01FzShape{name: "while-while/break-exit", prog: prog, period: 10, stmts: a * b * 9, want: fmt.Sprintf("%d\n", a*b)})
+	}
+	// F: the work is done by a function called from a rule pattern and from ENDFILE, behind a -r selector
+	{
+		a, b := 17+r.Intn(2), 9000+r.Intn(900)
+		if big {
+			a = 36
+		}
+		prog := funcs + "BEGIN { n = 0 }\nfunction work(d) { §\nfor (i = 0; i < " + fmt.Sprint(a) + "; i++) { for (j = 0; j < " + fmt.Sprint(b) + "; j++) { n++; fr(); if (j < 0) return } }\nreturn d }\nwork(1) > 0 { print n, $ }\nENDFILE { work(2); print n }"
+		shapes = append(shapes, c01FzShape{name: "pattern-and-ENDFILE/function-with-loops", prog: prog, period: 8, stmts: 2 * a * b * 7, sels: []string{"[$[0] + 4]"},
+			files: []File{{Name: "in.json", Data: []byte("[1]")}}, want: fmt.Sprintf("%d 5\n%d\n", a*b, 2*a*b)})
+	}
+	return shapes
+}
+
+// c01FzOracle: C01 itself (the class), and what follows from it together with "output is written as
+// statements execute": a completed run has printed everything, a stopped run a prefix. (Whether a
+// guard stops a run at all is not C01's business, except that these valid programs on valid input
+// cannot end in a syntax or JSON error.)
+func c01FzOracle(want string, mustOK bool) func(Resp) string {
+	return func(i Resp) string {
+		if w := c01ClassOracle(i); w != "" {
+			return w
+		}
+		got := string(i.Bytes("out"))
+		switch i["class"] {
+		case "ok":
+			if got != want {
+				return fmt.Sprintf("fuzzing=true: the run completed but printed %s, expected %s", short(strconv.Quote(got)), short(strconv.Quote(want)))
+			}
+		case "runtime":
+			if !strings.HasPrefix(want, got) {
+				return fmt.Sprintf("fuzzing=true: the run stopped with a runtime error after printing %s, which is not a prefix of what the program prints (%s)", short(strconv.Quote(c11Tail(got))), short(strconv.Quote(c11Tail(want))))
+			}
+		default:
+			if mustOK {
+				return "fuzzing=true: a valid program on valid input ended with class " + i["class"]
+			}
+		}
+		return ""
+	}
+}
+
+func c01GenFuzzing(r *rand.Rand, tier string, emit func(Case)) {
+	// (1) a lot of work below the loop limit, every filler count
+	for _, sh := range c01FzShapes(r, tier) {
+		fills := sh.fills
+		if fills == nil {
+			for s := 0; s <= sh.period+1; s++ {
+				fills = append(fills, s)
+			}
+		}
+		for _, s := range fills {
+			prog := strings.Replace(sh.prog, "§", strings.Repeat("x = 1; ", s), 1)
+			emit(Case{ID: fmt.Sprintf("work/%s/fill%d", sh.name, s), Req: RunReqFuzz(prog, sh.sels, sh.files), ImplOnly: true, Oracle: c01FzOracle(sh.want, true), NonTrivial: c01Any,
+				Meta: metaProg(prog, "shape", sh.name, "filler-statements", fmt.Sprint(s), "statements-executed-about", fmt.Sprint(sh.stmts), "selectors", strings.Join(sh.sels, " | "),
+					"expected-output", short(strconv.Quote(c11Tail(sh.want))), "row", "work/"+sh.name)})
+		}
+	}
+	// (2) loops around the limit of 10 000 rounds and far beyond it, endless loops: the guard's own
+	// error is an ordinary runtime error, output before it is kept
+	type lp struct{ name, prog string }
+	loops := []lp{
+		{"for", "BEGIN { print \"B1\"; for (i = 0; i < #; i++) { n++; if (n % 2500 == 0) print n }\nprint \"done\", n }"},
+		{"while", "BEGIN { print \"B1\"; i = 0; while (i < #) { i++; n++; if (n % 2500 == 0) print n }\nprint \"done\", n }"},
+		{"while-continue", "BEGIN { print \"B1\"; i = 0; while (i < #) { i++; n++; if (n % 2500 == 0) print n; continue; n = 0 }\nprint \"done\", n }"},
+		{"for-continue-in-match", "BEGIN { print \"B1\"; for (i = 0; i < #; i++) { n++; if (n % 2500 == 0) print n; match (1) { _ => { continue } } }\nprint \"done\", n }"},
+		{"for-in-function", "function lf() { for (i = 0; i < #; i++) { n++; if (n % 2500 == 0) print n }\nreturn }\nBEGIN { print \"B1\"; lf(); print \"done\", n }"},
+		{"while-in-function-value", "function lf(a) { i = 0; while (i < a) { i++; n++; if (n % 2500 == 0) print n }\nreturn n }\nBEGIN { print \"B1\"; print \"done\", lf(#) }"},
+		{"for-in-rule-body", "BEGIN { print \"B1\" }\n$ == 1 { for (i = 0; i < #; i++) { n++; if (n % 2500 == 0) print n }\nprint \"done\", n }"},
+		{"for-in-END", "BEGIN { print \"B1\" }\nEND { for (i = 0; i < #; i++) { n++; if (n % 2500 == 0) print n }\nprint \"done\", n }"},
+		{"for-in-BEGINFILE", "BEGIN { print \"B1\" }\nBEGINFILE { for (i = 0; i < #; i++) { n++; if (n % 2500 == 0) print n }\nprint \"done\", n }"},
+		{"while-in-pattern-function", "function lf(a) { i = 0; while (i < a) { i++; n++; if (n % 2500 == 0) print n }\nprint \"done\", n; return 0 }\nBEGIN { print \"B1\" }\n$ == 1 && lf(#) { print \"no\" }"},
+		{"inner-loop-of-a-nest", "BEGIN { print \"B1\"; for (o = 0; o < 1; o++) { for (i = 0; i < #; i++) { n++; if (n % 2500 == 0) print n } }\nprint \"done\", n }"},
+		{"for-inside-for-in", "BEGIN { print \"B1\"; for (e in [1]) { for (i = 0; i < #; i++) { n++; if (n % 2500 == 0) print n } }\nprint \"done\", n }"},
+		{"for-in-match-block", "BEGIN { print \"B1\"; match (1) { _ => { for (i = 0; i < #; i++) { n++; if (n % 2500 == 0) print n } } }\nprint \"done\", n }"},
+	}
+	ns := []int{9000, 10000, 10001, 10002, 10003, 12500, 40000}
+	if tier == "thorough" {
+		ns = append(ns, 1, 9999, 20000, 1000000)
+	}
+	full := func(n int) string {
+		var sb strings.Builder
+		sb.WriteString("B1\n")
+		for k := 2500; k <= n; k += 2500 {
+			fmt.Fprintf(&sb, "%d\n", k)
+		}
+		fmt.Fprintf(&sb, "done %d\n", n)
+		return sb.String()
+	}
+	in := []File{{Name: "in.json", Data: []byte("[1, 2]")}}
+	for _, l := range loops {
+		for _, n := range ns {
+			prog := "BEGIN { n = 0 }\n" + strings.ReplaceAll(l.prog, "#", fmt.Sprint(n))
+			want := full(n)
+			o := c01FzOracle(want, true)
+			emit(Case{ID: fmt.Sprintf("limit/%s/%d", l.name, n), Req: RunReqFuzz(prog, nil, in), ImplOnly: true, NonTrivial: c01Any,
+				Meta: metaProg(prog, "loop", l.name, "rounds", fmt.Sprint(n), "row", "limit/"+l.name),
+				Oracle: func(i Resp) string {
+					if w := o(i); w != "" {
+						return w
+					}
+					if n >= 10002 && i["class"] != "runtime" {
+						return fmt.Sprintf("fuzzing=true: a loop of %d rounds was not stopped by the loop guard: class %s", n, i["class"])
+					}
+					return ""
+				}})
+		}
+	}
+	// endless loops: only the guard ends them
+	for k, prog := range []string{
+		"BEGIN { print \"B1\"; while (1) { n++ }\nprint \"no\" }",
+		"BEGIN { print \"B1\"; for (;;) { n++ }\nprint \"no\" }",
+		"BEGIN { print \"B1\"; while (1) { n++; continue }\nprint \"no\" }",
+		"BEGIN { print \"B1\"; for (i = 0; 1; i++) { match (1) { _ => { continue } } }\nprint \"no\" }",
+		"function spin() { while (true) { } }\nBEGIN { print \"B1\" }\n{ spin(); print \"no\" }",
+		"BEGIN { print \"B1\" }\nEND { for (x in [1, 2]) { while (1) { n++ } }\nprint \"no\" }",
+		"BEGIN { print \"B1\"; while (1) { for (i = 0; i < 3; i++) { n++ } } }",
+		"BEGIN { print \"B1\"; for (i = 0; i < 2; i--) { if (i < -5) i = 0 } }",
+	} {
+		emit(Case{ID: fmt.Sprintf("endless/%d", k), Req: RunReqFuzz(prog, nil, in), ImplOnly: true, NonTrivial: c01Any, Meta: metaProg(prog, "loop", "endless", "row", "endless"),
+			Oracle: func(i Resp) string {
+				if w := c01ClassOracle(i); w != "" {
+					return w
+				}
+				if i["class"] != "runtime" && i["class"] != "syntax" || i["class"] == "runtime" && string(i.Bytes("out")) != "B1\n" {
+					return "fuzzing=true: an endless loop must be stopped by the loop guard with a runtime error after the output B1, got " + short(i.String())
+				}
+				return ""
+			}})
+	}
+	// (3) the flag alone changes nothing: small programs on every input, fuzzing=true against the
+	// model's answer for the ordinary run
+	ins := c01Inputs()
+	nSmall := tierN(tier, 150, 3000)
+	for k := 0; k < nSmall; k++ {
+		prog := c01MutSeeds[k%len(c01MutSeeds)]
+		inp := ins[1+k%7]
+		if k >= len(c01MutSeeds)*2 {
+			inp = c01PickInput(r, ins)
+		}
+		var sels []string
+		if chance(r, 0.2) {
+			sels = []string{pick(r, c01SelValid)}
+		}
+		emit(Case{ID: fmt.Sprintf("small/%d", k), Req: RunReqFuzz(prog, sels, inp.files), ModelReq: RunReq(prog, sels, inp.files, false), Fields: c01Fields, Oracle: c01ClassOracle, NonTrivial: c01Any,
+			Meta: metaProg(prog, "input", inp.name, "selectors", strings.Join(sels, " | "), "row", "small programs, flag only")})
+	}
+}
+
+func init() {
+	register(Family{Name: "fuzzing-mode", Prop: "C01",
+		Rule: "library runs with fuzzing=true (request flag z; implementation only, the model has no such mode): (1) 6 long-running programs (for x for with every statement kind in the innermost body -- bare return, return with a value, return out of a loop, calls, if/else, match expression and block, break, an empty while, print, member update, continue --; for-in over a 4096-character string x for-in over an array; 230 000 records through three rules ending in next; recursion 60-80 deep with a bare return at every level; while x while with break and a final exit; a function with loops called from a rule pattern and ENDFILE behind a -r selector), 1-5 million statements each while every while/for loop stays below 10 000 rounds, each in P+2 variants with 0 .. P+1 filler statements before the loops (P = statements per innermost round; the recursion: 10 filler counts half a depth apart) so that the N-th statement of the run is each statement kind in turn for ANY N; (2) 13 loop forms x 7 round counts around the guard's limit (9000 .. 10003, 12500, 40000) and 8 endless loops: at most 10 000 rounds must complete, from 10 002 on and for endless loops the guard's runtime error, output before it kept; (3) small valid programs x inputs with the flag, compared with the model's answer for the ordinary run. Oracle: class in ok|runtime|syntax|json (a panic, crash or timeout is a violation), a completed run prints exactly the expected counters, a stopped run a prefix of them.",
+		Gen:  c01GenFuzzing})
+}
+
+// ---------------------------------------------------------------------------
+// family 10: every error path of the real binary under every flag combination
+//
+// cli.Run has several steps after the evaluation (the -o step: count the inputs, serialise the
+// root, create the file, write), and several before it (-f, opening the inputs). An error of any
+// kind must end the run at once with status 1 and a diagnostic; a step that runs after a failed
+// one works on values the failure left unset (a nil evaluator after a syntax error). So: every
+// error kind x every flag combination, through the `cli` request.
+
+type c01BinErr struct {
+	kind, name string
+	prog       string   // the program text
+	sels       []string // -r selectors
+	input      string   // "" = a good input; else the kind of bad input
+	sure       bool     // the run certainly fails (exit status 1), whatever the flags
+	silent     bool     // a syntax error in the program: no output at all
+}
+
+func c01BinErrKinds() []c01BinErr {
+	var ks []c01BinErr
+	add := func(kind, name, prog string, sels []string, input string, sure, silent bool) {
+		ks = append(ks, c01BinErr{kind, name, prog, sels, input, sure, silent})
+	}
+	for _, p := range [][2]string{
+		{"unterminated string", "BEGIN { print \"a }"}, {"illegal character", "BEGIN { print 1 @ 2 }"}, {"unterminated regex", "{ print $ ~ /ab }"},
+		{"expression cut off", "{ $.y = $.x + "}, {"block not closed", "BEGIN { print \"a\" "}, {"stray closing brace", "{ print $ } }"}, {"function without a name", "function { }"},
+		{"break outside a loop", "BEGIN { print \"a\"; break }"}, {"return outside a function", "{ return 1 }"}, {"assignment to a literal", "{ 1 = 2 }"},
+		{"error after valid rules", "BEGIN { print \"before\" }\n{ $.k = 1; print $ }\nEND { print ( }"}, {"only an operator", "+"}, {"match without cases closed", "{ x = match ($) { 1 => 2 }"},
+	} {
+		add("syntax", p[0], p[1], nil, "", true, true)
+	}
+	for _, s := range []string{"$.a +", "(", "", "$ $", "\"abc", "break"} {
+		add("selector-syntax", "selector "+strconv.Quote(s), "BEGIN { print \"b\" } { $.k = 1; print $ }", []string{s}, "", true, false)
+	}
+	for _, s := range []string{"1 / 0", "$.a.b.c()", "$nosuch", "\"a\" ~ \"(\"", "7 % 0.5"} {
+		add("selector-runtime", "selector "+strconv.Quote(s), "BEGIN { print \"b\" } { $.k = 1; print $ }", []string{s}, "", true, false)
+	}
+	add("selector-second-fails", "second selector fails", "{ print $ }", []string{"$", "1 / 0"}, "", true, false)
+	for _, p := range [][2]string{
+		{"BEGIN", "BEGIN { print \"b\"; x = 1 / 0; print \"after\" }\n{ $.k = 1 }"},
+		{"BEGIN, nothing else", "BEGIN { x = [] < [] }"},
+		{"BEGINFILE", "BEGINFILE { print \"bf\"; nosuch() }\n{ $.k = 1 }"},
+		{"rule pattern", "BEGIN { print \"b\" }\n$.a / 0 > 1 { print \"no\" }"},
+		{"rule body", "{ $.seen = 1; print \"r\"; x = \"a\" ~ \"(\"; print \"after\" }"},
+		{"rule body, second record", "{ $.seen = $index }\n$index == 1 { print \"second\"; x = 7 % 0.5 }\nEND { print \"end\" }"},
+		{"function called from a rule", "function f(a) { return a.b.c() }\n{ $.k = 1; print \"r\"; f($) }"},
+		{"match body", "{ match ($) { _ => { print \"m\"; printf(\"%s\") } } }"},
+		{"ENDFILE", "{ $.k = 1 }\nENDFILE { print \"ef\"; $nosuch = 1 }"},
+		{"END", "{ $.k = 1; print $index }\nEND { print \"e\"; x = 5(); print \"after\" }"},
+		{"END after the root was replaced", "{ $ = {n: $index} }\nEND { [1][null] }"},
+		{"call depth", "function r(n) { return r(n + 1) }\n{ $.k = 1; print r(0) }"},
+	} {
+		add("runtime", "runtime error in "+p[0], p[1], nil, "", true, false)
+	}
+	okProgs := []string{"{ $.k = 1; print $index }", "BEGIN { print \"only\" }", "{ print $ } END { exit }", "", "{ $ = null }", "BEGIN { exit } { print \"no\" }", "{ $ = printf }"}
+	for _, in := range []string{"truncated", "stray", "bad-byte", "good-then-bad", "out-of-range", "too-deep"} {
+		add("json", "JSON input error: "+in, okProgs[len(ks)%3], nil, in, true, false)
+	}
+	add("json", "JSON input error and a runtime error in END", "{ print $index }\nEND { x = 1 / 0 }", nil, "good-then-bad", true, false)
+	for _, in := range []string{"missing", "directory"} {
+		add("open", in+" input", okProgs[len(ks)%3], nil, in, true, false)
+		add("open", in+" input, program with a syntax error", "{ print ( }", nil, in, true, true)
+	}
+	add("open", "-f names a missing file", "{ print $ }", nil, "f-missing", true, true)
+	add("open", "-f names a directory", "{ print $ }", nil, "f-directory", true, true)
+	add("open", "-f file is empty", "", nil, "f-empty", false, false)
+	for _, in := range []string{"empty", "blank"} {
+		add("no-value", in+" input (nothing to write with -o)", okProgs[0], nil, in, false, false)
+	}
+	for i, p := range okProgs {
+		add("none", fmt.Sprintf("no error (%d)", i), p, nil, "", false, false)
+	}
+	return ks
+}
+
+func c01BinBad(kind string) []byte {
+	switch kind {
+	case "truncated":
+		return []byte(`[{"a":1},{"a":2}`)
+	case "stray":
+		return []byte(`[{"a":1}] ] [2]`)
+	case "bad-byte":
+		return []byte("\xff")
+	case "good-then-bad":
+		return []byte("{\"a\":1}\n{\"a\":2}\n{\"a\":")
+	case "out-of-range":
+		return []byte(`[1e999]`)
+	case "too-deep":
+		return []byte(strings.Repeat("[", 10001) + strings.Repeat("]", 10001))
+	case "empty":
+		return nil
+	case "blank":
+		return []byte(" \n\t")
+	}
+	return []byte("[{\"a\":1},{\"a\":2,\"b\":[1,2]}]\n")
+}
+
+func c01GenBinErrors(r *rand.Rand, tier string, emit func(Case)) {
+	if os.Getenv("JQAWK_BIN") == "" {
+		emit(Case{ID: "no-binary", Req: "cli - - - -", ImplOnly: true,
+			Oracle: func(Resp) string { return "env JQAWK_BIN is not set: the binary was not run" },
+			Meta:   map[string]string{"problem": "env JQAWK_BIN is not set; this family runs the real binary"}})
+		return
+	}
+	oModes := []string{"", "-", "out.json", "nodir/out.json", "d", "sub/out.json", "-o=-"}
+	deliveries := []string{"stdin", "one-file", "two-files-first", "two-files-last", "three-files"}
+	kinds := c01BinErrKinds()
+	n := 0
+	one := func(k c01BinErr, o string, viaF bool, deliv string, extraSel bool) {
+		n++
+		var argv []string
+		var disk []CliFile
+		ofile := ""
+		switch o {
+		case "":
+		case "-o=-":
+			argv = append(argv, "-o=-")
+		default:
+			argv = append(argv, "-o", o)
+			if o != "-" {
+				ofile = o
+			}
+		}
+		switch o {
+		case "d":
+			disk = append(disk, CliFile{Name: "d", Dir: true})
+		case "sub/out.json":
+			disk = append(disk, CliFile{Name: "sub", Dir: true})
+		}
+		sels := k.sels
+		if extraSel && k.sels == nil {
+			sels = []string{"$"}
+		}
+		for _, s := range sels {
+			if s == "" {
+				argv = append(argv, "-r", "")
+			} else if n%2 == 0 {
+				argv = append(argv, "-r="+s)
+			} else {
+				argv = append(argv, "-r", s)
+			}
+		}
+		fKind := ""
+		if strings.HasPrefix(k.input, "f-") {
+			viaF, fKind = true, k.input
+		}
+		if viaF {
+			argv = append(argv, "-f", "prog.jqawk")
+			switch fKind {
+			case "f-missing":
+			case "f-directory":
+				disk = append(disk, CliFile{Name: "prog.jqawk", Dir: true})
+			default:
+				disk = append(disk, CliFile{Name: "prog.jqawk", Data: []byte(k.prog)})
+			}
+		} else {
+			argv = append(argv, k.prog)
+		}
+		// the input under test (x) and where it goes
+		good := c01BinBad("")
+		var x CliFile
+		xName := "x.json"
+		inKind := k.input
+		if fKind != "" {
+			inKind = ""
+		}
+		switch inKind {
+		case "missing":
+			xName = "nope.json"
+		case "directory":
+			xName = "xdir"
+			x = CliFile{Name: xName, Dir: true}
+		default:
+			x = CliFile{Name: xName, Data: c01BinBad(inKind)}
+		}
+		var stdin []byte
+		hasStdin := false
+		switch deliv {
+		case "stdin":
+			if inKind == "missing" || inKind == "directory" {
+				deliv = "one-file"
+			}
+		}
+		other := CliFile{Name: "good.json", Data: good}
+		switch deliv {
+		case "stdin":
+			stdin, hasStdin = x.Data, true
+			if len(stdin) > 60000 {
+				// more than a pipe holds and the binary may stop reading: through a file instead
+				hasStdin, deliv = false, "one-file"
+				argv = append(argv, xName)
+				disk = append(disk, x)
+			}
+		case "one-file":
+			argv = append(argv, xName)
+		case "two-files-first":
+			argv = append(argv, xName, "good.json")
+			disk = append(disk, other)
+		case "two-files-last":
+			argv = append(argv, "good.json", xName)
+			disk = append(disk, other)
+		case "three-files":
+			argv = append(argv, "good.json", xName, "good.json")
+			disk = append(disk, other)
+		}
+		if deliv != "stdin" && inKind != "missing" && !(len(disk) > 0 && disk[len(disk)-1].Name == xName) {
+			disk = append(disk, x)
+		}
+		sure, silent := k.sure, k.silent
+		if inKind == "missing" || inKind == "directory" {
+			silent = true // the inputs are opened before anything runs
+			if inKind == "directory" && k.kind == "open" && !k.silent {
+				silent = false // a directory opens; reading it fails when its turn comes: BEGIN has run by then
+			}
+		}
+		kindName, what := k.kind, k.name
+		emit(Case{ID: fmt.Sprintf("%s/%d", k.kind, n), Req: CliReq(argv, stdin, hasStdin, disk, ofile), Fields: c14CliFields, NonTrivial: c14NT,
+			Meta: metaProg(k.prog, "error-kind", k.kind, "what", k.name, "argv", strings.Join(argv, " ␣ "), "input-delivery", deliv, "input", short(strconv.Quote(string(x.Data))),
+				"row", k.kind+": "+k.name, "col", "-o "+o+map[bool]string{true: " -f", false: ""}[viaF]+" "+deliv),
+			Oracle: func(i Resp) string {
+				switch i["class"] {
+				case "nobinary", "badrequest", "crash", "garbled":
+					return "harness problem running the binary: " + i.String()
+				}
+				stderr := string(i.Bytes("stderr"))
+				for _, mark := range []string{"goroutine ", "panic:", "fatal error", "runtime error: invalid memory", "SIGSEGV"} {
+					if strings.Contains(stderr, mark) {
+						return "C01: the binary ended in a Go panic / stack trace (exit status " + i["exit"] + "): " + short(stderr)
+					}
+				}
+				if i["exit"] != "0" && i["exit"] != "1" {
+					return "C01: exit status " + i["exit"] + " (expected 0, or 1 with a diagnostic): " + short(stderr)
+				}
+				if i["exit"] == "1" && i["errlen"] == "0" {
+					return "C01: exit status 1 without a diagnostic on stderr"
+				}
+				if sure && i["exit"] != "1" {
+					return fmt.Sprintf("C01: %s (%s): the run must end with status 1 and a diagnostic, got status %s", kindName, what, i["exit"])
+				}
+				if silent && (i["out"] != "-" || i["ofexists"] == "1" && ofile != "d") {
+					return fmt.Sprintf("C01: %s (%s): nothing may run, but stdout is %q / the -o file exists: %s", kindName, what, i.Bytes("out"), i["ofexists"])
+				}
+				return ""
+			}})
+	}
+	// every error kind x every -o mode x inline / -f x a rotating delivery; every delivery at least
+	// once per kind
+	rounds := tierN(tier, 1, 4)
+	for round := 0; round < rounds; round++ {
+		for ki, k := range kinds {
+			for oi, o := range oModes {
+				for fi := 0; fi < 2; fi++ {
+					if tier != "thorough" && o == "-o=-" && fi == 1 {
+						continue
+					}
+					one(k, o, fi == 1, deliveries[(ki+oi*2+fi+round)%len(deliveries)], (ki+oi+round)%5 == 0)
+				}
+			}
+			for di, d := range deliveries {
+				one(k, pick(r, oModes[:4]), (di+ki+round)%3 == 0, d, chance(r, 0.2))
+			}
+		}
+	}
+	for i := tierN(tier, 200, 6000); i > 0; i-- {
+		one(pick(r, kinds), pick(r, oModes), chance(r, 0.4), pick(r, deliveries), chance(r, 0.3))
+	}
+}
+
+func init() {
+	register(Family{Name: "binary-error-paths", Prop: "C01",
+		Rule: "the real binary (request kind cli): every error kind -- 13 syntax errors in the program (lexer, parser, static checks, after valid rules), syntax and runtime errors in a -r selector (alone, second of two), runtime errors in BEGIN / BEGINFILE / rule pattern / rule body (first and second record) / function / match body / ENDFILE / END / call depth, JSON input errors (truncated, stray bracket, bad byte, after good values, number out of range, nested too deep), missing input file, directory as input, -f naming a missing file / a directory / an empty file, inputs without a value, and programs without an error -- x every flag combination: no -o, -o -, -o=-, -o FILE, -o into a missing directory, -o onto a directory, -o into a sub-directory, program inline / through -f, with and without -r, the input under test on stdin / as the only file / first / last / middle of several files; plus random combinations. Oracle (C01): exit status 0, or 1 with a diagnostic on stderr; stderr never holds `goroutine`, `panic:` or `fatal error`; an error that is certain by construction gives status 1, a syntax error / an input that cannot be opened leaves stdout empty and writes no -o file. Compared with the model on exit, stdout, diagnostic flag, -o file content and existence. Non-trivial = stdout, stderr or an -o file.",
+		Gen:  c01GenBinErrors})
 }
